@@ -1841,6 +1841,7 @@ func resetMsgPackTimestamp(pack *msgstream.MsgPack, newTimestamp uint64) bool {
 	if beginTs > newTimestamp || len(pack.Msgs) == 0 {
 		return false
 	}
+	verifNote("pack:reset", "", newTimestamp, pack)
 	deltas := make([]uint64, len(pack.Msgs))
 	lastTS := uint64(0)
 	for i, msg := range pack.Msgs {
